@@ -228,6 +228,12 @@ Proof.
   destruct c; [congruence|]. simpl. lia.
 Qed.
 
+Lemma vpart_cell_in nodes P i v : vpart nodes P -> In v (nth i P []) -> In v nodes.
+Proof.
+  intros [Hc _] Hv. apply (Permutation_in _ Hc). apply in_concat. exists (nth i P []). split; auto.
+  destruct (Nat.lt_ge_cases i (length P)); [apply nth_In; auto|]. rewrite nth_overflow in Hv by auto. contradiction.
+Qed.
+
 Section LeafProps.
 Variable S : Type.
 Variable sleb : S -> S -> bool.
@@ -240,16 +246,18 @@ Variable nodes : list N.
 Hypothesis nodes_nd : NoDup nodes.
 
 Theorem leaves_shape fuel : forall P pre p, vpart nodes P ->
-  In p (leaves sleb sig rf fuel P pre) -> exists ext r, p = (pre ++ ext) ++ r /\ Permutation r nodes.
+  In p (leaves sleb sig rf fuel P pre) -> exists ext r, p = (pre ++ ext) ++ r /\ Permutation r nodes /\ incl ext nodes.
 Proof.
   induction fuel as [|f IH]; intros P pre p HP Hin; simpl in Hin; [contradiction|].
   pose proof (refine_vpart S sleb sleb_total sleb_trans sleb_antisym sig nodes rf P HP) as HP'.
   destruct (first_big (refine sleb sig rf P)) as [i|] eqn:Efb.
   - apply in_flat_map in Hin. destruct Hin as (v & Hv & Hin).
     destruct (individualise_props nodes _ i v nodes_nd HP' Efb Hv) as [HPi _].
-    destruct (IH _ _ _ HPi Hin) as (ext & r & -> & Hr). exists (v :: ext), r. split; auto.
-    rewrite <- (app_assoc pre [v] ext). reflexivity.
-  - destruct Hin as [<-|[]]. exists [], (concat (refine sleb sig rf P)). split; [rewrite app_nil_r; auto|]. apply (proj1 HP').
+    destruct (IH _ _ _ HPi Hin) as (ext & r & -> & Hr & Hi). exists (v :: ext), r. split; [|split]; auto.
+    + rewrite <- (app_assoc pre [v] ext). reflexivity.
+    + intros x [<-|Hx]; [eapply vpart_cell_in; [exact HP'|exact Hv]|apply Hi; auto].
+  - destruct Hin as [<-|[]]. exists [], (concat (refine sleb sig rf P)). split; [rewrite app_nil_r; auto|].
+    split; [apply (proj1 HP')|intros x []].
 Qed.
 
 Theorem leaves_nonempty fuel : forall P pre, vpart nodes P -> length nodes < fuel + length P ->
@@ -269,3 +277,150 @@ Proof.
     apply IH; auto. rewrite Hli. lia.
 Qed.
 End LeafProps.
+
+(* ---------------- a partition-independent part of the signature is constant along every leaf position ---------------- *)
+Section KeySeq.
+Variable S : Type.
+Variable sleb : S -> S -> bool.
+Hypothesis sleb_total : forall a b, sleb a b = true \/ sleb b a = true.
+Hypothesis sleb_trans : forall a b c, sleb a b = true -> sleb b c = true -> sleb a c = true.
+Hypothesis sleb_antisym : forall a b, sleb a b = true -> sleb b a = true -> a = b.
+Variable sig : partition -> N -> S.
+Variable K : Type.
+Variable key : N -> K.
+Hypothesis sig_key : forall P v w, sig P v = sig P w -> key v = key w.
+Variable nodes : list N.
+Hypothesis nodes_nd : NoDup nodes.
+
+Definition hom (c : cell) : Prop := forall v w, In v c -> In w c -> key v = key w.
+Definition homP (P : partition) : Prop := Forall hom P.
+Definition kseq (P : partition) : list K := map key (concat P).
+
+Lemma hom_repeat c x : (forall y, In y c -> key y = key x) -> map key c = repeat (key x) (length c).
+Proof. induction c as [|y c IH]; simpl; intros H; auto. rewrite H by auto. f_equal. apply IH. auto. Qed.
+Lemma hom_perm_map c c' : hom c -> Permutation c c' -> map key c' = map key c.
+Proof.
+  intros Hh Hp. destruct c as [|x c].
+  - apply Permutation_nil in Hp. subst. auto.
+  - rewrite (hom_repeat (x :: c) x) by (intros y Hy; apply Hh; simpl; auto).
+    rewrite (hom_repeat c' x).
+    + rewrite (Permutation_length Hp). reflexivity.
+    + intros y Hy. apply Hh; [|left; auto]. eapply Permutation_in; [apply Permutation_sym; exact Hp|auto].
+Qed.
+Lemma hom_incl c c' : hom c -> incl c' c -> hom c'.
+Proof. intros H Hi v w Hv Hw. apply H; apply Hi; auto. Qed.
+
+Lemma split_cell_hom P c : Forall hom (split_cell sleb sig P c).
+Proof.
+  unfold split_cell. destruct (length c <=? 1) eqn:E1.
+  - constructor; auto. apply Nat.leb_le in E1. intros v w Hv Hw.
+    destruct c as [|a [|b c]]; simpl in *; try lia; try contradiction. destruct Hv as [<-|[]], Hw as [<-|[]]. auto.
+  - destruct (length (keys sleb sig P c) <=? 1) eqn:E2.
+    + constructor; auto. apply Nat.leb_le in E2. intros v w Hv Hw. apply (sig_key P).
+      assert (Iv : In (sig P v) (keys sleb sig P c)) by (apply sort_dedup_in; auto; apply in_map; auto).
+      assert (Iw : In (sig P w) (keys sleb sig P c)) by (apply sort_dedup_in; auto; apply in_map; auto).
+      destruct (keys sleb sig P c) as [|a [|b l]]; simpl in *; try lia; try contradiction.
+      destruct Iv as [<-|[]], Iw as [<-|[]]. auto.
+    + apply Forall_forall. intros d Hd. apply in_map_iff in Hd. destruct Hd as (s & <- & _).
+      intros v w Hv Hw. unfold group in *. apply filter_In in Hv, Hw. destruct Hv as [_ Hv], Hw as [_ Hw].
+      apply (eqb_eq sleb sleb_total sleb_antisym) in Hv, Hw. apply (sig_key P). congruence.
+Qed.
+Lemma refine_step_hom P : homP (refine_step sleb sig P).
+Proof.
+  unfold refine_step, homP. generalize P at 1 as Q. intros Q. induction P as [|c P IH]; simpl; [constructor|].
+  apply Forall_app. split; auto. apply split_cell_hom.
+Qed.
+Lemma refine_step_kseq P : homP P -> kseq (refine_step sleb sig P) = kseq P.
+Proof.
+  unfold refine_step, kseq. generalize P at 2 as Q. intros Q. induction 1 as [|c P Hc HP IH]; simpl; auto.
+  rewrite concat_app, !map_app. f_equal; auto.
+  apply hom_perm_map; auto. apply Permutation_sym. apply (split_cell_perm S sleb sleb_total sleb_trans sleb_antisym).
+Qed.
+Lemma refine_hom fuel : forall P, homP P -> homP (refine sleb sig fuel P).
+Proof. induction fuel as [|f IH]; intros P HP; simpl; auto. destruct (_ =? _); [apply refine_step_hom|apply IH, refine_step_hom]. Qed.
+Lemma refine_hom1 fuel P : homP (refine sleb sig (Datatypes.S fuel) P).
+Proof. simpl. destruct (_ =? _); [apply refine_step_hom|apply refine_hom, refine_step_hom]. Qed.
+Lemma refine_kseq fuel : forall P, homP P -> kseq (refine sleb sig fuel P) = kseq P.
+Proof.
+  induction fuel as [|f IH]; intros P HP; simpl; auto.
+  destruct (_ =? _); [apply refine_step_kseq; auto|]. rewrite IH; [apply refine_step_kseq; auto|apply refine_step_hom].
+Qed.
+
+Lemma individualise_hom_kseq P i v : vpart nodes P -> homP P -> first_big P = Some i -> In v (nth i P []) ->
+  homP (individualise P i v) /\ kseq (individualise P i v) = kseq P.
+Proof.
+  intros [Hc Hne] Hh Hfb Hv. destruct (first_big_spec P i Hfb) as [Hi Hbig].
+  unfold individualise.
+  remember (firstn i P) as hd. remember (skipn (Datatypes.S i) P) as tl. remember (nth i P []) as c.
+  assert (HP : P = hd ++ c :: tl) by (subst; apply split_nth; auto).
+  clear Heqhd Heqtl Heqc Hfb Hi. subst P.
+  assert (Hndc : NoDup c).
+  { apply (NoDup_concat_cell (hd ++ c :: tl)); [eapply Permutation_NoDup; [apply Permutation_sym; exact Hc|auto]|].
+    apply in_or_app. right. left. auto. }
+  pose proof (rest_perm v c Hndc Hv) as Hr.
+  unfold homP in *. apply Forall_app in Hh. destruct Hh as [Hh1 Hh2].
+  pose proof (Forall_inv Hh2) as Hhc. pose proof (Forall_inv_tail Hh2) as Hh3.
+  assert (Hrne : rest v c <> []).
+  { intro E. rewrite E in Hr. apply Permutation_length in Hr. simpl in Hr. lia. }
+  unfold kseq.
+  destruct (rest v c) as [|r0 rr] eqn:Er; [congruence|]. split.
+  - apply Forall_app. split; auto. cbn [app]. constructor.
+    + intros a b [<-|[]] [<-|[]]. auto.
+    + constructor; auto. apply (hom_incl c); auto. intros x Hx. rewrite <- Er in Hx. unfold rest in Hx. apply filter_In in Hx. tauto.
+  - rewrite !concat_app, !map_app. f_equal.
+    change (concat (c :: tl)) with (c ++ concat tl). rewrite map_app, app_assoc, <- map_app. f_equal.
+    cbn [concat app]. rewrite app_nil_r.
+    apply hom_perm_map; auto. apply Permutation_sym. auto.
+Qed.
+
+Variable rf : nat.
+Theorem leaves_kseq fuel : forall P pre p, vpart nodes P -> homP P ->
+  In p (leaves sleb sig rf fuel P pre) ->
+  exists ext r, p = (pre ++ ext) ++ r /\ Permutation r nodes /\ map key r = kseq P /\ incl ext nodes.
+Proof.
+  induction fuel as [|f IH]; intros P pre p HP Hh Hin; simpl in Hin; [contradiction|].
+  pose proof (refine_vpart S sleb sleb_total sleb_trans sleb_antisym sig nodes rf P HP) as HP'.
+  pose proof (refine_hom rf P Hh) as Hh'. pose proof (refine_kseq rf P Hh) as Hk.
+  destruct (first_big (refine sleb sig rf P)) as [i|] eqn:Efb.
+  - apply in_flat_map in Hin. destruct Hin as (v & Hv & Hin).
+    destruct (individualise_props nodes _ i v nodes_nd HP' Efb Hv) as [HPi _].
+    destruct (individualise_hom_kseq _ i v HP' Hh' Efb Hv) as [Hhi Hki].
+    destruct (IH _ _ _ HPi Hhi Hin) as (ext & r & -> & Hr & Hkr & Hi). exists (v :: ext), r. split; [|split; [|split]]; auto.
+    + rewrite <- (app_assoc pre [v] ext). reflexivity.
+    + rewrite Hkr, Hki. auto.
+    + intros x [<-|Hx]; [eapply vpart_cell_in; [exact HP'|exact Hv]|apply Hi; auto].
+  - destruct Hin as [<-|[]]. exists [], (concat (refine sleb sig rf P)). split; [rewrite app_nil_r; auto|].
+    split; [apply (proj1 HP')|split; [exact Hk|intros x []]].
+Qed.
+End KeySeq.
+
+Theorem leaves_kseq_top S sleb (sleb_total : forall a b, sleb a b = true \/ sleb b a = true)
+  (sleb_trans : forall a b c, sleb a b = true -> sleb b c = true -> sleb a c = true)
+  (sleb_antisym : forall a b, sleb a b = true -> sleb b a = true -> a = b)
+  (sig : partition -> N -> S) K (key : N -> K) (sig_key : forall P v w, sig P v = sig P w -> key v = key w)
+  nodes (nodes_nd : NoDup nodes) rf fuel P pre p : vpart nodes P ->
+  In p (leaves sleb sig (Datatypes.S rf) fuel P pre) ->
+  exists ext r, p = (pre ++ ext) ++ r /\ Permutation r nodes /\
+                map key r = kseq K key (refine sleb sig (Datatypes.S rf) P) /\ incl ext nodes.
+Proof.
+  intros HP Hin. destruct fuel as [|f]; [contradiction|]. cbn [leaves] in Hin. cbv zeta in Hin.
+  pose proof (refine_vpart S sleb sleb_total sleb_trans sleb_antisym sig nodes (Datatypes.S rf) P HP) as HP'.
+  assert (Hh' : homP K key (refine sleb sig (Datatypes.S rf) P)) by (eapply refine_hom1; eauto).
+  destruct (first_big (refine sleb sig (Datatypes.S rf) P)) as [i|] eqn:Efb.
+  - apply in_flat_map in Hin. destruct Hin as (v & Hv & Hin).
+    destruct (individualise_props nodes _ i v nodes_nd HP' Efb Hv) as [HPi _].
+    assert (Hik : homP K key (individualise (refine sleb sig (Datatypes.S rf) P) i v) /\
+                  kseq K key (individualise (refine sleb sig (Datatypes.S rf) P) i v) = kseq K key (refine sleb sig (Datatypes.S rf) P)).
+    { eapply individualise_hom_kseq; eauto. }
+    destruct Hik as [Hhi Hki].
+    assert (Hl : exists ext r, p = ((pre ++ [v]) ++ ext) ++ r /\ Permutation r nodes /\
+                   map key r = kseq K key (individualise (refine sleb sig (Datatypes.S rf) P) i v) /\ incl ext nodes).
+    { eapply leaves_kseq; eauto. }
+    destruct Hl as (ext & r & -> & Hr & Hkr & Hi).
+    exists (v :: ext), r. split; [|split; [|split]]; auto.
+    + rewrite <- (app_assoc pre [v] ext). reflexivity.
+    + rewrite Hkr, Hki. auto.
+    + intros x [<-|Hx]; [eapply vpart_cell_in; [exact HP'|exact Hv]|apply Hi; auto].
+  - destruct Hin as [<-|[]]. exists [], (concat (refine sleb sig (Datatypes.S rf) P)). split; [rewrite app_nil_r; auto|].
+    split; [apply (proj1 HP')|split; [reflexivity|intros x []]].
+Qed.
